@@ -116,3 +116,26 @@ func TestBlocksParallelEqualsSequential(t *testing.T) {
 		}
 	}
 }
+
+func TestSolveFirstBlock(t *testing.T) {
+	h := []byte{0x66, 0xe9, 0x4b, 0xd4, 0xef, 0x8a, 0x2c, 0x3b, 0x88, 0x4c, 0xfa, 0x59, 0xca, 0x34, 0x2b, 0x2e}
+	for _, n := range []int{16, 17, 32, 100, 1000} {
+		ct := make([]byte, n)
+		for i := range ct {
+			ct[i] = byte(i*13 + 5)
+		}
+		aad := []byte("some aad")
+		target := LenBlock(len(aad), n)
+		copy(ct[:16], SolveFirstBlock(h, aad, ct, target))
+		g := NewGHashStream(h)
+		g.Blocks(aad)
+		g.Blocks(ct)
+		if string(g.State()) != string(target) {
+			t.Fatalf("n=%d: accumulator %x, want %x", n, g.State(), target)
+		}
+		// then the final multiplication operates on zero
+		if s := g.Sum(len(aad), n); string(s) != string(make([]byte, 16)) {
+			t.Fatalf("n=%d: S=%x, want 0", n, s)
+		}
+	}
+}
